@@ -166,6 +166,39 @@ func ruleC05R2(r *Run) {
 			}
 		}
 	}
+	// the wrapper gives up with ErrConnectionClosed only when the status is Closed
+	closedC, _ := p.enumConst("/iscp", "connStatusClosed")
+	allInstrs(send, func(ins ssa.Instruction) {
+		ret, isRet := ins.(*ssa.Return)
+		if !isRet || sentinelName(retResults(ret)[0]) != "ErrConnectionClosed" {
+			return
+		}
+		okGuard := false
+		allInstrs(send, func(x ssa.Instruction) {
+			ifs, isIf := x.(*ssa.If)
+			if !isIf {
+				return
+			}
+			c, isCall := ifs.Cond.(*ssa.Call)
+			if !isCall {
+				return
+			}
+			cf := c.Call.StaticCallee()
+			if cf == nil || recvTypeName(cf) != "connStatus" {
+				return
+			}
+			hasClosed := false
+			for _, a := range c.Call.Args {
+				if v, isC := constInt(a); isC && v == closedC {
+					hasClosed = true
+				}
+			}
+			if hasClosed && (ifs.Block().Dominates(ret.Block())) {
+				okGuard = true
+			}
+		})
+		r.Check(sname+" gives up only when Closed", okGuard, posOf(p, ret), sname, "the return of ErrConnectionClosed after a connection-closed error must be decided by a status test that names connStatusClosed; any other test makes requests interrupted by an outage fail although Close was never called")
+	})
 	r.Check(sname+" waits for Connected or Closed", okWait, p.pos(send.Pos()), sname, "send must wait with WaitUntilOrClosed(ctx, connStatusConnected) so that a closed connection ends the wait")
 }
 
@@ -258,6 +291,63 @@ func ruleC05R4(r *Run) {
 		r.Check(name+" error exits close the stream", w == nil, posOf(p, w), name,
 			"an error return of resume is reachable without closeWithError: the supervisor then exits and the stream stays detached — not closed, never resumed, still accepting writes",
 			"entry: "+name, "resume exchange: "+posOf(p, anchor), "offending exit: "+posOf(p, w))
+		// the retry closure gives up on a transport error (the connection it was given is dead; retrying on it can never succeed)
+		for _, cl := range fn.AnonFuncs {
+			var reqCalls []ssa.Instruction
+			allInstrs(cl, func(ins ssa.Instruction) {
+				if n := callName(ins); strings.HasPrefix(n, "/wire.ClientConn.Send") && strings.HasSuffix(n, "ResumeRequest") {
+					reqCalls = append(reqCalls, ins)
+				}
+			})
+			for _, rc := range reqCalls {
+				call, isCall := rc.(*ssa.Call)
+				if !isCall {
+					continue
+				}
+				okEnd := false
+				for _, ev := range errResultsOf(call) {
+					for _, ifs := range nilTestsOf(cl, ev) {
+						bo := ifs.Cond.(*ssa.BinOp)
+						ne := nilEdge(ifs, bo.X)
+						if ne == nil {
+							ne = nilEdge(ifs, bo.Y)
+						}
+						for _, s := range ifs.Block().Succs {
+							if s == ne {
+								continue
+							}
+							all, any := true, false
+							seenB := map[*ssa.BasicBlock]bool{}
+							var walk func(b *ssa.BasicBlock)
+							walk = func(b *ssa.BasicBlock) {
+								if seenB[b] {
+									return
+								}
+								seenB[b] = true
+								for _, x := range b.Instrs {
+									if ret, isRet := x.(*ssa.Return); isRet {
+										any = true
+										cv, isC := retResults(ret)[0].(*ssa.Const)
+										if !isC || cv.Value == nil || cv.Value.ExactString() != "true" {
+											all = false
+										}
+										return
+									}
+								}
+								for _, nx := range b.Succs {
+									walk(nx)
+								}
+							}
+							walk(s)
+							if any && all {
+								okEnd = true
+							}
+						}
+					}
+				}
+				r.Check(fnName(cl)+" retry ends on a transport error", okEnd, posOf(p, rc), fnName(cl), "when the resume request itself fails (the connection died mid-exchange) the retry closure must return true; retrying on the same dead connection loops forever and the stream is never closed nor moved to the next connection")
+			}
+		}
 	}
 }
 
